@@ -27,6 +27,10 @@ Definition metadata_is_obj (o : json) : bool :=
 
 Definition is_orphan (o : json) : bool := match controller_of o with None => true | Some _ => false end.
 
+Definition has_controller_ref_of (o : json) (uid : string) : bool :=
+  existsb (fun r => String.eqb (or_uid r) uid && match or_controller r with Some true => true | _ => false end)
+          (get_owner_refs o).
+
 (* ---- C02: what may be sent on behalf of a parent ---- *)
 Definition C02_call_ok (c : ccfg) (k : cache) (parent : json) (cl : call) : bool :=
   match cl with
@@ -35,7 +39,7 @@ Definition C02_call_ok (c : ccfg) (k : cache) (parent : json) (cl : call) : bool
       targets_parent c parent q ||
       match q_verb q with
       | VGet => true
-      | VCreate => controlled_by (q_body q) (get_uid parent) || negb (metadata_is_obj (q_body q))
+      | VCreate => has_controller_ref_of (q_body q) (get_uid parent) || negb (metadata_is_obj (q_body q))
       | VDelete =>
           match find_cached c k q with
           | Some o => String.eqb (q_uid_pre q) (get_uid o) && String.eqb (q_prop q) "Background" &&
